@@ -9,6 +9,7 @@ THEOREMS = ["C01_no_deadlock", "C01_no_self_wait", "C01_stable_test_sound", "C01
             "C01_every_schedule", "C01_every_schedule_deadlock_free", "C01_every_schedule_no_self_wait", "C01_model_never_deadlocks"]
 CASE_MODULES = ["Conc", "BMonitors", "WpMain"]
 CHECK_WITHOUT_PROOF = True
+SHRINK_GUARD = 1      # which of the booleans evaluated with the verdict certifies the theorem's hypotheses
 TRUSTED = common.TRUSTED_COMMON + ["deterministic scheduler of the harness: real OS threads, one runnable at a time, "
                                    "every raw lock operation and data access is a scheduling point"]
 ASSUMPTIONS = common.ASSUME_COMMON + ["grant policies of the auditing RwLock: reader-preferring and writer-preferring "
